@@ -91,3 +91,19 @@ func VerifParseHeaders(data []byte) (VerifFrameInfo, error) {
 func VerifTables() (coeffs0, coeffsUpdate [NumTypes][NumBands][NumCTX][NumProbas]uint8, bmodes [NumBModes][NumBModes][NumBModes - 1]uint8) {
 	return CoeffsProba0, CoeffsUpdateProba, KBModesProba
 }
+
+// VerifReconPlanes returns copies of the encoder's sample planes cropped to the
+// picture size. After EncodeFrame they hold the encoder's own reconstruction
+// (the prediction reference), written back macroblock by macroblock.
+func (enc *VP8Encoder) VerifReconPlanes() (w, h int, y, u, v []byte) {
+	w, h = enc.width, enc.height
+	cw, ch := (w+1)/2, (h+1)/2
+	for j := 0; j < h; j++ {
+		y = append(y, enc.yPlane[j*enc.yStride:j*enc.yStride+w]...)
+	}
+	for j := 0; j < ch; j++ {
+		u = append(u, enc.uPlane[j*enc.uvStride:j*enc.uvStride+cw]...)
+		v = append(v, enc.vPlane[j*enc.uvStride:j*enc.uvStride+cw]...)
+	}
+	return
+}
